@@ -223,6 +223,42 @@ def run(tier, seed):
     # ---------------------------------------------------------------- the program
     d = cliflow.workdir("c16")
     try:
+        # a valid building whose metadata carry odd values for the parameters the program reads from them
+        META_ODD = {
+            "CTE_RED1": ["{}", "{ren}", "{ren: 1, nren}", "{ren: 1, nren: 2, co2: x}", "{ren: 1; nren: 2}", "{:}", "{ : , : }", "{ren: 1, nren: 2, co2: 3}",
+                         "(1, 2", "(1, 2, 3)", "1, 2", "1, 2, 3, 4", "", ",,", "NaN, inf, -1", "(", "}", "{", "1e39, 0, 0", "\u00e9, 1, 1"],
+            "CTE_KEXP": ["", "x", "NaN", "inf", "-1", "2", "1e39", "0,5", "0.5 0.5", "{}"],
+            "CTE_AREAREF": ["", "x", "NaN", "inf", "-1", "0", "1e-30", "1e39", "10 m2", "{}"],
+            "CTE_LOCALIZACION": ["", "x", "peninsula", "PENINSULA, CANARIAS", "\u00e9", "{}"],
+        }
+        META_ODD["CTE_RED2"] = META_ODD["CTE_RED1"]
+        bi = 0
+        for mk in sorted(META_ODD):
+            for mv in META_ODD[mk]:
+                bi += 1
+                btxt = "#META %s: %s\n1, CONSUMO, CAL, RED1, 10\n1, CONSUMO, REF, RED2, 10\n2, CONSUMO, ILU, ELECTRICIDAD, 5\n" % (mk, mv)
+                cp = os.path.join(d, "m%d.csv" % bi)
+                open(cp, "w", encoding="utf-8").write(btxt)
+                args = ["-c", cp] + ([] if mk == "CTE_LOCALIZACION" else ["-l", "PENINSULA"]) + (["--oc", os.path.join(d, "moc%d.csv" % bi)] if bi % 2 else [])
+                rr = cliflow.run_cli(args, d, timeout=30)
+                R.evaluations += 1
+                stats["cli_odd_metadata"] += 1
+                stats["cli_exit_%s" % rr["exit"]] += 1
+                what = None
+                if rr["hang"]:
+                    what = "the program does not terminate by itself"
+                elif rr["exit"] not in OK_EXITS:
+                    what = "the program ends with status %s (panic, abort or signal)" % rr["exit"]
+                elif "panicked at" in rr["stderr"]:
+                    what = "the program panics"
+                elif rr["exit"] != 0 and not rr["stderr"].strip():
+                    what = "the program fails with status %s without a message on stderr" % rr["exit"]
+                if what:
+                    if len(R.violations) < 6:
+                        R.violations.append((what.split(" (")[0][:70], {"what": what, "args": [a.replace(d, "<dir>") for a in args], "components": btxt,
+                                                                        "factors": None, "stderr": rr["stderr"][-600:]}))
+                else:
+                    R.cases_validated += 1
         ncli = 60 if quick else 1200
         for i, (txt, ftxt, tag) in enumerate(files[:ncli]):
             cp = os.path.join(d, "c%d.csv" % i)
